@@ -3,6 +3,12 @@ import PhyloModel.Arena.Group3
 import PhyloModel.Dist.CompressPathLen
 import PhyloModel.Arena.Ops
 import PhyloModel.Arena.ResolvePost
+import PhyloModel.Arena.DistRescale
+import PhyloModel.Arena.DistLadder
+import PhyloModel.Arena.DistCompress
+import PhyloModel.Arena.DistResolve
+import PhyloModel.Arena.LadderKey
+import PhyloModel.Arena.DistPrune
 /-! # C11 — editing operations have exactly their documented effect
 
 Arena level (`AR`): exact frames of `prune` and of the regrouping step of `merge_children` / `resolve`.
@@ -125,5 +131,190 @@ theorem ladderize_only_reorders (a : Arena) :
 theorem edits_keep_invariant (a : Arena) (op : Op) (g : Good a) :
     Good (applyOp a op).1 ∧ (applyOp a op).2 ≠ .diverge :=
   applyOp_good op g
+
+
+/-! ## C11 (continued) — the editing operations keep every leaf-to-leaf path length, on the executable model
+
+`AR.distance a x y` mirrors `Tree::get_distance`: `.ok (d, n)` where `d` is the sum of the branch lengths on
+the connecting path (`none` as soon as one of them is missing) and `n` its number of edges.  `Good a` is
+the arena invariant every edit history preserves (`C11.edits_keep_invariant`).  `IsTip a i`: live slot
+without children.  `Unary a i`: live non-root slot with exactly one child (what `compress` removes). -/
+
+open AR
+
+/-- **rescale**: for all node ids the answer of `get_distance` after `rescale k` is the answer before with
+    the length multiplied by `k`; edge count and errors are unchanged; the tips are the same -/
+theorem rescale_multiplies_distances (a : Arena) (k : Int) (x y : Nat) :
+    distance (rescale a k) x y = (do let d ← distance a x y; pure (d.1.map (· * k), d.2)) ∧
+    (IsTip (rescale a k) x ↔ IsTip a x) :=
+  ⟨rescale_distance a k x y, rescale_tips a k x⟩
+
+/-- **ladderize**: every answer of `get_distance` (and of `get_path_from_root`) is unchanged, for all node
+    ids and whatever the outcome; the tips are the same -/
+theorem ladderize_keeps_distances (a : Arena) (x y : Nat) :
+    distance (ladderize a).1 x y = distance a x y ∧ pathFromRoot (ladderize a).1 x = pathFromRoot a x ∧
+    (IsTip (ladderize a).1 x ↔ IsTip a x) :=
+  ⟨ladderize_distance a x y, ladderize_pathFromRoot a x, (ladderize_frame a).tip x⟩
+
+/-- **compress_node v**: any two distinct live nodes other than `v` keep the length of their connecting
+    path; the number of edges does not grow -/
+theorem compressNode_keeps_lengths {a a' : Arena} {v : Nat} {o : Option Nat} (g : Good a)
+    (h : compressNode a v = (a', .ok o)) (x y : Nat) (hlx : live a x) (hly : live a y) (hxv : x ≠ v)
+    (hyv : y ≠ v) (hxy : x ≠ y) :
+    ∃ d n n', distance a x y = .ok (d, n) ∧ distance a' x y = .ok (d, n') ∧ n' ≤ n := by
+  obtain ⟨n, n', ⟨d, e1, e2⟩, hle⟩ := compressNode_sameLen g h hlx hly hxv hyv hxy
+  exact ⟨d, n, n', e1, e2, hle⟩
+
+/-- **compress**: any two distinct live nodes that are not themselves one-child non-root nodes keep the
+    length of their connecting path; the number of edges does not grow -/
+theorem compress_keeps_lengths {a a' : Arena} {o : Option Nat} (g : Good a) (h : compress a = (a', .ok o))
+    (x y : Nat) (hlx : live a x) (hly : live a y) (hx : ¬ Unary a x) (hy : ¬ Unary a y) (hxy : x ≠ y) :
+    ∃ d n n', distance a x y = .ok (d, n) ∧ distance a' x y = .ok (d, n') ∧ n' ≤ n := by
+  obtain ⟨n, n', ⟨d, e1, e2⟩, hle⟩ := compress_sameLen g h hlx hly hx hy hxy
+  exact ⟨d, n, n', e1, e2, hle⟩
+
+/-- **compress, leaf to leaf**: same set of tips, same path length between any two of them, and no
+    one-child non-root node is left -/
+theorem compress_keeps_leaf_distances {a a' : Arena} {o : Option Nat} (g : Good a)
+    (h : compress a = (a', .ok o)) :
+    (∀ i, ¬ Unary a' i) ∧ (∀ i, IsTip a' i ↔ IsTip a i) ∧
+    ∀ x y, IsTip a x → IsTip a y → x ≠ y →
+      ∃ d n n', distance a x y = .ok (d, n) ∧ distance a' x y = .ok (d, n') ∧ n' ≤ n :=
+  ⟨(compress_post g h).1, (compress_tip_distances g h).1, (compress_tip_distances g h).2⟩
+
+/-- **resolve**, for every outcome `picks` of its random choices: any two distinct live nodes keep the
+    length of their connecting path; the number of edges does not drop -/
+theorem resolve_keeps_lengths {a a' : Arena} (picks : List (Nat × Nat)) (g : Good a)
+    (h : resolve a picks = some a') (x y : Nat) (hlx : live a x) (hly : live a y) (hxy : x ≠ y) :
+    ∃ d n n', distance a x y = .ok (d, n) ∧ distance a' x y = .ok (d, n') ∧ n ≤ n' := by
+  obtain ⟨n, n', ⟨d, e1, e2⟩, hle⟩ := resolve_sameLen picks g h hlx hly hxy
+  exact ⟨d, n, n', e1, e2, hle⟩
+
+/-- **resolve, leaf to leaf**: same set of tips, same path length between any two of them, and no node
+    with more than two children is left -/
+theorem resolve_keeps_leaf_distances {a a' : Arena} (picks : List (Nat × Nat)) (g : Good a)
+    (h : resolve a picks = some a') :
+    (∀ i, (nd a' i).children.length ≤ 2) ∧ (∀ i, IsTip a' i ↔ IsTip a i) ∧
+    ∀ x y, IsTip a x → IsTip a y → x ≠ y →
+      ∃ d n n', distance a x y = .ok (d, n) ∧ distance a' x y = .ok (d, n') ∧ n ≤ n' :=
+  ⟨(resolve_post picks g h).1, (resolve_tip_distances picks g h).1, (resolve_tip_distances picks g h).2⟩
+
+/-- the sort key of `ladderize`: `descCount a v` is the number of proper descendants of `v` -/
+theorem descCount_counts_descendants {a : Arena} (g : Good a) {v : Nat} (hl : live a v) :
+    ∃ l : List Nat, l.Nodup ∧ (∀ u, u ∈ l ↔ ∃ k, BelowK a v u (k + 1)) ∧ descCount a v = l.length :=
+  descCount_spec g.1 hl
+
+/-- **postcondition of ladderize**: with a root present the call succeeds, and every node of the root's tree
+    has its children ordered by their number of proper descendants (in the result), the new list being
+    exactly the stable sort of the old one by that key; nothing else in the slot changes; slots outside the
+    root's tree are untouched -/
+theorem ladderize_orders_children {a : Arena} (g : Good a) {r : Nat} (hr : getRoot a = some r) :
+    (ladderize a).2 = .ok none ∧
+    (∀ v, (∃ k, BelowK a r v k) →
+      (nd (ladderize a).1 v).children.Pairwise
+        (fun c d => descCount (ladderize a).1 c ≤ descCount (ladderize a).1 d) ∧
+      (nd (ladderize a).1 v).children = (nd a v).children.mergeSort
+        (fun c d => decide (descCount (ladderize a).1 c ≤ descCount (ladderize a).1 d)) ∧
+      (nd (ladderize a).1 v).children.Perm (nd a v).children ∧
+      nd (ladderize a).1 v = { nd a v with children := (nd (ladderize a).1 v).children }) ∧
+    (∀ v, (¬ ∃ k, BelowK a r v k) → nd (ladderize a).1 v = nd a v) ∧
+    (∀ c, descCount (ladderize a).1 c = descCount a c) := by
+  obtain ⟨s1, s2, s3⟩ := ladderize_slots g hr
+  refine ⟨s1, ?_, s3, (ladderize_frame a).descCount g (ladderize_good g)⟩
+  intro v hv
+  obtain ⟨p1, p2, p3⟩ := ladderize_post g hr v hv
+  refine ⟨p1, p2, p3, ?_⟩
+  have := s2 v hv
+  rw [this]
+
+/-- ... for every live node when there is at most one parentless live node (every tree the crate builds) -/
+theorem ladderize_orders_all_children {a : Arena} (g : Good a) (h1 : AtMostOneRoot a) (v : Nat)
+    (hl : live a v) :
+    (nd (ladderize a).1 v).children.Pairwise
+        (fun c d => descCount (ladderize a).1 c ≤ descCount (ladderize a).1 d) ∧
+    (nd (ladderize a).1 v).children = (nd a v).children.mergeSort
+        (fun c d => decide (descCount (ladderize a).1 c ≤ descCount (ladderize a).1 d)) ∧
+    (nd (ladderize a).1 v).children.Perm (nd a v).children :=
+  ladderize_post_all g h1 v hl
+
+/-- **compress, leaf to leaf, whatever the outcome** (`compress` may stop half-way with
+    `MissingBranchLengths`, leaving some nodes already spliced out): same tips, same path lengths -/
+theorem compress_keeps_leaf_distances_any_outcome {a : Arena} (g : Good a) :
+    (∀ i, IsTip (compress a).1 i ↔ IsTip a i) ∧
+    ∀ x y, IsTip a x → IsTip a y → x ≠ y →
+      ∃ d n n', distance a x y = .ok (d, n) ∧ distance (compress a).1 x y = .ok (d, n') ∧ n' ≤ n :=
+  compress_tip_distances_any g
+
+/-- **prune**: every answer of `get_distance` between two surviving nodes is unchanged -/
+theorem prune_keeps_distances {a : Arena} (g : Good a) (c x y : Nat) (hlx : live (prune a c).1 x)
+    (hly : live (prune a c).1 y) : distance (prune a c).1 x y = distance a x y :=
+  prune_distance g c x y hlx hly
+
+/-- the four operations of the first sentence of C11, and the factor each applies to lengths -/
+inductive ShapeEdit where
+  | compress
+  | resolve (picks : List (Nat × Nat))
+  | ladderize
+  | rescale (k : Int)
+
+def ShapeEdit.op : ShapeEdit → Op
+  | .compress => .compress
+  | .resolve picks => .resolve picks
+  | .ladderize => .ladderize
+  | .rescale k => .rescale k
+
+def ShapeEdit.factor : ShapeEdit → Int
+  | .rescale k => k
+  | _ => 1
+
+theorem map_mul_one (d : Option Int) : d.map (· * (1 : Int)) = d := by cases d <;> simp
+
+/-- **summary**: `compress`, `resolve` (for every outcome of its random choices, also an ill-formed oracle),
+    `ladderize` and `rescale k`, applied to any well-formed arena and whatever they return, leave the set of
+    tips unchanged and answer `get_distance` between any two distinct tips with the old length multiplied
+    by the operation's factor (`k` for `rescale k`, 1 otherwise) -/
+theorem shape_edits_keep_leaf_lengths {a : Arena} (g : Good a) (e : ShapeEdit) :
+    (∀ i, IsTip (applyOp a e.op).1 i ↔ IsTip a i) ∧
+    ∀ x y, IsTip a x → IsTip a y → x ≠ y →
+      ∃ d n n', distance a x y = .ok (d, n) ∧
+        distance (applyOp a e.op).1 x y = .ok (d.map (· * e.factor), n') := by
+  have hdist : ∀ x y, IsTip a x → IsTip a y → x ≠ y → ∃ d n, distance a x y = .ok (d, n) := by
+    intro x y hx hy hxy
+    obtain ⟨P, hP⟩ := path_total g x hx.1
+    obtain ⟨Q, hQ⟩ := path_total g y hy.1
+    exact ⟨_, _, distance_of_paths g.1.toW hP hQ hxy⟩
+  cases e with
+  | compress =>
+    obtain ⟨t, s⟩ := compress_tip_distances_any g
+    refine ⟨t, ?_⟩
+    intro x y hx hy hxy
+    obtain ⟨d, n, n', e1, e2, _⟩ := s x y hx hy hxy
+    exact ⟨d, n, n', e1, by simpa [ShapeEdit.op, ShapeEdit.factor, applyOp, map_mul_one] using e2⟩
+  | resolve picks =>
+    simp only [ShapeEdit.op, ShapeEdit.factor, applyOp, map_mul_one]
+    cases hr : resolve a picks with
+    | none =>
+      refine ⟨fun _ => Iff.rfl, ?_⟩
+      intro x y hx hy hxy
+      obtain ⟨d, n, e1⟩ := hdist x y hx hy hxy
+      exact ⟨d, n, n, e1, e1⟩
+    | some a' =>
+      obtain ⟨t, s⟩ := resolve_tip_distances picks g hr
+      refine ⟨t, ?_⟩
+      intro x y hx hy hxy
+      obtain ⟨d, n, n', e1, e2, _⟩ := s x y hx hy hxy
+      exact ⟨d, n, n', e1, e2⟩
+  | ladderize =>
+    simp only [ShapeEdit.op, ShapeEdit.factor, applyOp, map_mul_one]
+    refine ⟨(ladderize_frame a).tip, ?_⟩
+    intro x y hx hy hxy
+    obtain ⟨d, n, e1⟩ := hdist x y hx hy hxy
+    exact ⟨d, n, n, e1, by rw [ladderize_distance, e1]⟩
+  | rescale k =>
+    simp only [ShapeEdit.op, ShapeEdit.factor, applyOp]
+    refine ⟨rescale_tips a k, ?_⟩
+    intro x y hx hy hxy
+    obtain ⟨d, n, e1⟩ := hdist x y hx hy hxy
+    exact ⟨d, n, n, e1, rescale_distance_ok a k x y d n e1⟩
 
 end C11
